@@ -86,6 +86,11 @@ where
         );
 
         let base2k: usize = res.base2k().into();
+        assert_eq!(
+            pt.base2k(),
+            res.base2k(),
+            "plaintext and ciphertext must share base2k (the plaintext is added limb-wise)"
+        );
 
         self.vec_znx_fill_uniform(base2k, &mut res.data, 0, source_xa);
 
